@@ -6,6 +6,7 @@ package c07
 
 import (
 	"fmt"
+	"strings"
 	"testing"
 	"time"
 
@@ -82,8 +83,12 @@ func check(c Case, o *vf.Obs) error {
 		return fmt.Errorf("provider did not end by itself after %d passes: %s", c.Passes, res.Hung)
 	}
 	ents := f.Entries()
-	binary, zeroBody := false, false
+	binary, zeroBody, tagRun, tagTab := false, false, false, false
 	for _, e := range ents {
+		if ag.HasBlankRun(e.Tag) {
+			tagRun = true
+			tagTab = tagTab || strings.Contains(e.Tag, "\t")
+		}
 		for _, b := range e.Body {
 			if b < 0x20 || b > 0x7e {
 				binary = true
@@ -107,6 +112,10 @@ func check(c Case, o *vf.Obs) error {
 	o.ClassIf(c.Passes > 1, "multi_pass")
 	o.ClassIf(c.Hold >= 2, "several_ammo_held_at_once")
 	o.ClassIf(f.Big, "file_larger_than_reader_buffer")
+	// a tag whose words are separated by more than one space, or by tabs: tag text, delivered as written
+	o.ClassIf(tagRun, "tag_inner_blank_run")
+	o.ClassIf(tagRun, "tag_inner_blank_run_"+f.Format)
+	o.ClassIf(tagTab, "tag_inner_tab")
 	if len(ents) >= 2 && (f.Layout.LayoutKnobOn() || f.MidFileDirective() || binary) {
 		o.NonTrivial()
 	}
